@@ -292,6 +292,7 @@ func runC17(c *Ctx) {
 		sort.Strings(names)
 		c.verdict(nTypes >= 5 && len(bad) == 0, "module | Stop methods do not wait for goroutines that Start never spawned", "", fmt.Sprintf("%d types with Start and Stop (%s); %d wait(s) on goroutine-closed channels, each behind a test of the started flag", nTypes, join(names), nWaits), join(bad))
 	})
+	c.rule("C17.G1", "the data directory can be reopened after a Stop in mid-reorganisation: "+rollbackReachesTargetDoc, func() { c.rollbackReachesTarget() })
 	c.rule("C17.P3", "Stop completes: "+lockOrderDoc, func() { c.lockOrder() })
 	c.rule("C17.P2", "Stop completes: "+eventsUnlockedDoc, func() { c.eventsUnlocked() })
 	c.rule("C17.B1", "blocking discipline over both modules: every blocking select has an arm that becomes ready at shutdown or after a bounded time (a close-only signal channel, context.Done or a timer); every unconditional send / receive is a tabled site with a reason and a supporting obligation; buffered classes are allocated with constant capacity >= 1", func() {
